@@ -153,3 +153,33 @@ def extra(binary, build, tier, rng):
             if o:
                 yield {"kind": "oracle", "build": build, "request": q, "impl": fr[:300], "model": "", "oracle": o}
     yield {"kind": "count", "what": "le-word-stream-checks", "n": len(cases)}
+
+
+def big_fill_le_oracle(binary, build, label=""):
+    """fills of 64 KiB and more at every alignment class, word-based generators: the bytes must be the little-endian serialisation of the
+    successive next_u64 outputs from the same state (implementation only; shared with C01, whose streams these are)"""
+    big = []
+    for q in big_fills():
+        d = dict(t.split("=", 1) for t in q.split()[1:])
+        if d["gen"] in ("xoshiro", "splitmix", "wyrand"):
+            pre = [x for x in d["pre"].split(",") if x]
+            nbytes = int(d["count"]) * ELEMS[d["elem"]][0]
+            big.append((q, d["gen"], int(d["seed"]), pre, nbytes))
+    reqs = []
+    for q, gen, seed, pre, nbytes in big:
+        reqs += [q, "word gen=%s seed=%d via=from_seed ops=%s" % (gen, seed, ",".join(pre + ["u64"] * ((nbytes + 7) // 8 + 1)))]
+    rc, res, err = C.run_lines(binary, ["run"], reqs)
+    for k, (q, gen, seed, pre, nbytes) in enumerate(big):
+        fr, wr = res[2 * k], res[2 * k + 1]
+        if fr == "panic" or wr == "panic":
+            yield {"kind": "oracle", "build": build, "request": q, "impl": fr[:100], "model": "", "oracle": "a fill of %d bytes panicked" % nbytes}
+            continue
+        ft = dict(t.split(":", 1) for t in fr.split())
+        words = [int(t) for t in wr.split()[len(pre):] if t.isdigit()]
+        want = b"".join(w.to_bytes(8, "little") for w in words)
+        got = bytes.fromhex(ft["b"])
+        if got != want[:nbytes]:
+            i = next(j for j in range(nbytes) if got[j:j + 1] != want[j:j + 1])
+            yield {"kind": "oracle", "build": build, "request": q, "impl": fr[:300], "model": wr[:300],
+                   "oracle": "%sthe %d-byte fill is not the little-endian serialisation of the successive next_u64 outputs from the same state (first difference at byte %d)" % (label, nbytes, i)}
+    yield {"kind": "count", "what": "big-fill-le-checks", "n": len(big)}
